@@ -9,6 +9,7 @@ same refsim function at every output and blackbox input pin; without constants a
 graphs must be identical.
 """
 import itertools
+import re
 import os
 import tempfile
 
@@ -187,6 +188,9 @@ def compare(acc, c, r, case, site, identical):
     acc.outcome("roundtrip-ok")
 
 
+LEGAL_ID = re.compile(r"^(?:[A-Za-z_][A-Za-z0-9_$]*|\\\S+)$")
+
+
 def check(acc, desc, behavioral, site="circuits", via_file=False, variant=None):
     """variant: None | "rev" (nodes inserted in reverse order) | "hist" (the same circuit object is written and read
     back once BEFORE one of its gates gets its final type in place; the round trip after the edit is judged)."""
@@ -205,7 +209,7 @@ def check(acc, desc, behavioral, site="circuits", via_file=False, variant=None):
             return
         finish()
     else:
-        c = space.build(desc, order=variant)
+        c = space.build(desc, order=variant if variant == "rev" else None)
     has_const = any(c.graph.nodes[n]["type"] in ("0", "1", "x") for n in c.graph.nodes)
     acc.transitions += 1
     if via_file:
@@ -231,10 +235,17 @@ def check(acc, desc, behavioral, site="circuits", via_file=False, variant=None):
             return
         try:
             r = cg.io.verilog_to_circuit(text, c.name, blackboxes=bb_objects())
+            if variant == "twice" and all(LEGAL_ID.match(n) for n in r.graph.nodes if "." not in n):
+                # what was read back is written and read once more (the writer's own spelling of constants,
+                # helper names ... goes through the reader a second time).  Only when every name of the
+                # intermediate circuit is a legal identifier: from escaped operands the reader derives helper
+                # names such as and_\a[0]_b, which are outside the property's quantifier.
+                text = cg.io.circuit_to_verilog(r, behavioral=behavioral)
+                r = cg.io.verilog_to_circuit(text, c.name, blackboxes=bb_objects())
         except Exception as e:  # noqa: BLE001
             acc.violation(site, f"reader-raises:{common.exc_name(e)}", dict(case, text=text), repr(e)[:300])
             return
-    compare(acc, c, r, dict(case, text=text), site, identical=(not has_const and not behavioral))
+    compare(acc, c, r, dict(case, text=text), site, identical=(not has_const and not behavioral and variant != "twice"))
     acc.observe(text)
 
 
@@ -252,6 +263,9 @@ def run(job):
                     acc.states += 2
                     check(acc, desc, beh, variant="rev")
                     check(acc, desc, beh, variant="hist")
+                if (_idx // job["of"]) % 6 == 3 or any(x[1] in ("0", "1", "x") for x in desc["nodes"]):
+                    acc.states += 1
+                    check(acc, desc, beh, variant="twice")
             acc.sample({"desc": desc})
             if acc.out_of_time():
                 break
@@ -264,6 +278,8 @@ def run(job):
                 acc.states += 2
                 check(acc, desc, beh, site="bb", variant="rev")
                 check(acc, desc, beh, site="bb", variant="hist")
+                acc.states += 1
+                check(acc, desc, beh, site="bb", variant="twice")
             acc.sample({"desc": desc})
     else:
         k = 0
